@@ -188,7 +188,34 @@ func c17filesChild(raw json.RawMessage, scratch string) {
 		in := filepath.Join(scratch, fmt.Sprintf("in-%d.rdb", i))
 		outp := filepath.Join(scratch, fmt.Sprintf("out-%d", i))
 		ioutil.WriteFile(in, data, 0644)
-		conf.Options = conf.Configuration{SourceRdbInput: []string{in}, TargetRdbOutput: outp, Parallel: par, Type: conf.TypeDecode}
+		inputs, outIdx := []string{in}, 0
+		if i%5 == 2 && special == "" {
+			// decode takes a list of input files and handles them one after the other: this case's file comes second
+			filler := filepath.Join(scratch, fmt.Sprintf("in-%d-first.rdb", i))
+			ff := rdbgen.RandFile(rng, rdbgen.FileOpts{MaxKeys: 12, MaxElems: 8, Metadata: true, MultiDB: true, Expiry: true, ClassicOnly: true})
+			for _, it := range ff.Items {
+				if it.Key != nil && it.Key.Val.Kind == "zset" {
+					for zi := range it.Key.Val.ZSet {
+						if z := &it.Key.Val.ZSet[zi]; math.IsInf(z.Score, 0) || math.IsNaN(z.Score) {
+							z.Score = 1 // non-finite scores are a recorded finding with its own schedule
+						}
+					}
+				}
+			}
+			fd, _ := rdbgen.Build(rng, ff, 0)
+			ioutil.WriteFile(filler, fd, 0644)
+			defer os.Remove(filler)
+			defer os.Remove(outp + ".0")
+			inputs, outIdx = []string{filler, in}, 1
+			r.Count("runs_with_two_input_files", 1)
+		}
+		outFile := fmt.Sprintf("%s.%d", outp, outIdx)
+		if i%4 == 1 && special == "" {
+			// an older, longer output of an earlier run sits at the output path
+			ioutil.WriteFile(outFile, bytes.Repeat([]byte("{\"stale\":\"line of an earlier decode run\"}\n"), 20000), 0644)
+			r.Count("runs_over_an_existing_longer_output", 1)
+		}
+		conf.Options = conf.Configuration{SourceRdbInput: inputs, TargetRdbOutput: outp, Parallel: par, Type: conf.TypeDecode}
 		cmd := &run.CmdDecode{}
 		done := make(chan struct{})
 		go func() { cmd.Main(); close(done) }()
@@ -199,9 +226,9 @@ func c17filesChild(raw json.RawMessage, scratch string) {
 			os.Remove(in)
 			continue
 		}
-		out, err := ioutil.ReadFile(outp + ".0")
+		out, err := ioutil.ReadFile(outFile)
 		os.Remove(in)
-		os.Remove(outp + ".0")
+		os.Remove(outFile)
 		if err != nil {
 			r.Violationf("C17|decode|outcome=no-output-file", d, "no output file: %v", err)
 			continue
